@@ -112,6 +112,9 @@ pub const CORNER_DOCS: &[(&str, &str)] = &[
     ("unclosed", "<a><b>"),
     ("dtd", "<!DOCTYPE a><a/>"),
     ("two-top-elements", "<a/><b/>"),
+    // accepted by the crate (recorded finding C03:xml-prefix-rebound-accepted); the names written with
+    // the rebound prefix are in the namespace it is bound to there (seed C08k)
+    ("xml-prefix-rebound", "<a xmlns:xml=\"urn:a\" xmlns:q=\"urn:a\"><xml:b xml:id=\"i\"/><q:b q:id=\"j\"/></a>"),
     ("rebinding", "<p:a xmlns:p=\"urn:a\"><p:a xmlns:p=\"urn:b\"><p:a xmlns:p=\"urn:a\"/></p:a></p:a>"),
 ];
 
